@@ -1074,8 +1074,13 @@ def run(args):
         "quirk flags of the tag machine model (IRPC \"\" once, EXITM-in-IRP crash, ARGCOUNT = written arguments, SHIFT leaves the last token, ALLARGS after SHIFT skips empty arguments) are probed on the real binary each run",
         "bookkeeping of expansions (Model/MacroNest.lean: UseCounter vs NESTMAX, local-symbol handles, pass loop; Props/C11_Nest.lean): the model is run "
         "against the real asl (driver c11nest), the quirk flag emptyPops (the Restorer pops a handle the tag never pushed) is probed on the real binary; "
-        "SPEC Spec/MacroNest.lean is executable and judges the real output; a refinement theorem model = spec for all programs is NOT proved "
-        "(proved: counter = open expansions in every reachable state, refusal iff above NESTMAX, handle stack balanced without the quirk)",
+        "SPEC Spec/MacroNest.lean is executable and judges the real output; the refinement model = spec is proved for all programs "
+        "(C11_nest_pass_refines / C11_nest_run_refines / C11_nest_refines: every pass of the machine is the SPEC's structural expansion, for every "
+        "fuel >= the computable cost; hypotheses: the Restorer pops only what the tag pushed (the probed quirk value of the repaired tree), at most "
+        "NESTMAX+1 open expansions, no label twice in one scope, Stable - without Stable model and real assembler differ from the SPEC: known "
+        "finding forward-reference-to-local-label-takes-outer-label; C11_nest_refuses_partial: more than NESTMAX+1 open expansions in an expansion "
+        "that ends => a call is refused; C11_nest_pass_ends_iff / C11_nest_unbounded_recursion: enough fuel exists iff the expansion is finite; "
+        "also: counter = open expansions in every reachable state, refusal iff above NESTMAX, handle stack balanced without the quirk)",
         "context of an expansion (Model/TagsCtx.lean: CurrFileName saved/restored by the INCLUDE tags, FSearch by path components, Produce_Code's label "
         "memory with InsertPadding/LabelModify; Props/C11_Ctx.lean: C11_ctx_refines - the tag machine delivers the SPEC's hand expansion for every program "
         "and file system for which it exists -, C11_ctx_include_restores, C11_ctx_curr_inv, C11_ctx_label_construct_independent, C11_ctx_transparent): the "
